@@ -36,8 +36,7 @@ func TestVerifRace(t *testing.T) {
 	saved := crand.Reader
 	crand.Reader = io.Reader(&vAtomicReader{})
 	defer func() { crand.Reader = saved }()
-	s := h14Setup()
-	// expectations come from a second, identical set of values: the shared ones
+	// expectations come from a separate, identical set of values: the shared ones
 	// must meet their first use under concurrency
 	ref := h14Setup()
 	crAlpha, crReqs, _ := h02Ref(ref.cr)
@@ -74,72 +73,80 @@ func TestVerifRace(t *testing.T) {
 		}
 		return true
 	}
-	var wg sync.WaitGroup
-	const G, N = 8, 400
-	for g := 0; g < G; g++ {
-		wg.Add(1)
-		go func(g int) {
-			defer wg.Done()
-			for i := 0; i < N; i++ {
-				switch (g + i) % 5 {
-				case 0:
-					p, err := s.cr.Generate()
-					if err == nil && (!validChars(p.String(), crAlpha, crReqs, s.cr.Length) || p.Entropy != crEnt) {
-						fail("character password %q does not satisfy its recipe under concurrency", p.String())
-					}
-				case 1:
-					if s.cr.Entropy() != crEnt || s.cr.Alphabet() != strings.Join(crAlpha, "") {
-						fail("Entropy()/Alphabet() changed under concurrency")
-					}
-					s.cr.SuccessProbability()
-				case 2:
-					p, err := s.wr.Generate()
-					if err != nil {
-						fail("WLRecipe.Generate failed under concurrency: %v", err)
-						break
-					}
-					atoms, seps := p.Tokens().Atoms(), p.Tokens().Separators()
-					if len(atoms) != s.wr.Length || p.Entropy != wrEnt {
-						fail("wordlist password %q has the wrong shape or entropy under concurrency", p.String())
-					}
-					for _, a := range atoms {
-						if !h02Has(words, a) && !h02Has(words, strings.ToLower(a[:1])+a[1:]) {
-							fail("atom %q is not a word of the list", a)
+	// R rounds, each on freshly built shared values, the goroutines released
+	// together: lazily initialised state is initialised under contention R times
+	const R, G, N = 24, 8, 60
+	for round := 0; round < R; round++ {
+		s := h14Setup()
+		start := make(chan struct{})
+		var wg sync.WaitGroup
+		for g := 0; g < G; g++ {
+			wg.Add(1)
+			go func(g int) {
+				defer wg.Done()
+				<-start
+				for i := 0; i < N; i++ {
+					switch (g + i) % 5 {
+					case 0:
+						p, err := s.cr.Generate()
+						if err == nil && (!validChars(p.String(), crAlpha, crReqs, s.cr.Length) || p.Entropy != crEnt) {
+							fail("character password %q does not satisfy its recipe under concurrency", p.String())
 						}
-					}
-					for _, sp := range seps {
-						if !validChars(sp, sfAlpha, sfReqs, s.sfRec.Length) {
+					case 1:
+						if s.cr.Entropy() != crEnt || s.cr.Alphabet() != strings.Join(crAlpha, "") {
+							fail("Entropy()/Alphabet() changed under concurrency")
+						}
+						s.cr.SuccessProbability()
+					case 2:
+						p, err := s.wr.Generate()
+						if err != nil {
+							fail("WLRecipe.Generate failed under concurrency: %v", err)
+							break
+						}
+						atoms, seps := p.Tokens().Atoms(), p.Tokens().Separators()
+						if len(atoms) != s.wr.Length || p.Entropy != wrEnt {
+							fail("wordlist password %q has the wrong shape or entropy under concurrency", p.String())
+						}
+						for _, a := range atoms {
+							if !h02Has(words, a) && !h02Has(words, strings.ToLower(a[:1])+a[1:]) {
+								fail("atom %q is not a word of the list", a)
+							}
+						}
+						for _, sp := range seps {
+							if !validChars(sp, sfAlpha, sfReqs, s.sfRec.Length) {
+								fail("separator %q does not satisfy the separator recipe under concurrency", sp)
+							}
+						}
+					case 3:
+						sp, _ := s.sf()
+						if sp != "" && !validChars(sp, sfAlpha, sfReqs, s.sfRec.Length) {
 							fail("separator %q does not satisfy the separator recipe under concurrency", sp)
 						}
-					}
-				case 3:
-					sp, _ := s.sf()
-					if sp != "" && !validChars(sp, sfAlpha, sfReqs, s.sfRec.Length) {
-						fail("separator %q does not satisfy the separator recipe under concurrency", sp)
-					}
-				case 4:
-					for k, f := range h16Presets {
-						sp, _ := f.f()
-						if f.n > 0 && (len(strings.Split(sp, "")) != f.n || !strings.ContainsAny(f.set, sp[:1])) {
-							fail("preset %d returned %q under concurrency", k, sp)
+					case 4:
+						for k, f := range h16Presets {
+							sp, _ := f.f()
+							if f.n > 0 && (len(strings.Split(sp, "")) != f.n || !strings.ContainsAny(f.set, sp[:1])) {
+								fail("preset %d returned %q under concurrency", k, sp)
+							}
+						}
+						s.wr.Entropy()
+						s.wl.Size()
+						pr := NewWLRecipe(3, s.wl)
+						pr.SeparatorFunc = SFDigits1
+						if pp, err := pr.Generate(); err != nil || len(pp.Tokens().Separators()) != 2 {
+							fail("a recipe separated by SFDigits1 lost separators under concurrency")
 						}
 					}
-					s.wr.Entropy()
-					s.wl.Size()
-					pr := NewWLRecipe(3, s.wl)
-					pr.SeparatorFunc = SFDigits1
-					if pp, err := pr.Generate(); err != nil || len(pp.Tokens().Separators()) != 2 {
-						fail("a recipe separated by SFDigits1 lost separators under concurrency")
-					}
 				}
-			}
-		}(g)
+			}(g)
+		}
+		close(start)
+		wg.Wait()
 	}
-	wg.Wait()
 	if bad > 0 {
 		fmt.Printf("RACE-RESULT: invalid: %d results failed validation, first: %v\n", bad, firstBad.Load())
 		t.Fail()
 		return
 	}
-	fmt.Printf("RACE-RESULT: clean (%d goroutines x %d calls)\n", G, N)
+	fmt.Printf("RACE-RESULT: clean (%d rounds x %d goroutines x %d calls)\n", R, G, N)
 }
